@@ -97,12 +97,14 @@ def renderRun (r : List Request × Final × Option Eval) : String :=
   | (reqs, f, _) =>
     "ok " ++ (if reqs.isEmpty then "-" else ";".intercalate (reqs.map renderReq)) ++ " " ++ renderFinal f
 
-/-- fuel for `evaluate_internal`: the limit + 2 when there is one, else a large constant
-(the harness answers `diverge` for a run that exhausts its reader-operation budget) -/
+/-- fuel for `evaluate_internal`: the limit + 2 when there is one (C07 `iter_limit_terminates`:
+always enough), capped at 30000 loop iterations; without a limit 30000. The harness gives every
+evaluation a budget of 400000 reader operations (more than 30000 operations can use) and answers
+`diverge` when it is exhausted. -/
 def fuelFor (mx : Option Nat) : Nat :=
   match mx with
-  | some m => m + 2
-  | none => 300000
+  | some m => min (m + 2) 30000
+  | none => 30000
 
 def doEval (e : Endian) (enc : Encoding) (caps : Caps) (mode : Mode) (init obj mx : Option Nat)
     (prog : Bytes) (script : List Tok) : String :=
